@@ -124,4 +124,18 @@ static inline _Bool spa_P_eq_except(struct vec_vec_U a, struct vec_vec_U b, U_t 
   }
   return 1;
 }
+/* walking the predecessors of row i back from j reaches i within XT_N - 1 hops (the predecessor rows are trees) */
+static inline _Bool spa_walk_ok(struct vec_vec_U P, U_t i, U_t j)
+{
+  U_t c = j;
+  for (U_t s = 0; s < XT_N; s++)
+  {
+    if (c == i) return 1;
+    if (c >= XT_N) return 0;
+    c = P.e[i].e[c];
+  }
+  return 0;
+}
+static inline _Bool spa_D_same(struct vec_vec_I a, struct vec_vec_I b) { return spa_D_eq_except(a, b, XT_N, XT_N, 0); }
+static inline _Bool spa_P_same(struct vec_vec_U a, struct vec_vec_U b) { return spa_P_eq_except(a, b, XT_N, XT_N, 0); }
 #endif
